@@ -84,6 +84,22 @@ def make_transformer(I, **flags):
     return self
 
 
+def _pythonize_tree(node):
+    """PList fields -> python lists (so that stdlib helpers can walk a produced tree)."""
+    for f in getattr(node, "_fields", ()):
+        v = getattr(node, f, None)
+        if isinstance(v, PList):
+            v = list(v.items)
+            setattr(node, f, v)
+        if isinstance(v, list):
+            for x in v:
+                if isinstance(x, ast.AST):
+                    _pythonize_tree(x)
+        elif isinstance(v, ast.AST):
+            _pythonize_tree(v)
+    return node
+
+
 def _same_location(a, b):
     return all(getattr(a, k, None) == getattr(b, k, None) for k in ("lineno", "col_offset", "end_lineno", "end_col_offset"))
 
@@ -107,7 +123,7 @@ def replay_name(inputs, clause):
     id_, ctx = inputs.get("id"), inputs.get("ctx")
     if id_ is None or _lit(inputs.get("behaviorLocals")):
         return None
-    src = {"Load": f"y = {id_}\n", "Store": f"{id_} = 1\n", "Del": f"del {id_}\n"}[ctx]
+    src = {"Load": f"y = {id_}\nz = [1,\n     {id_}]\n", "Store": f"{id_} = 1\n", "Del": f"del {id_}\n"}[ctx]
     from scenic.core.errors import ScenicSyntaxError
 
     try:
@@ -170,6 +186,25 @@ def register(reg):
     preimport_scenic()
     reg.models["scenic.core.errors:getText"] = lambda I, *a, **k: (None, None, None)
     reg.trust("errors.getText", "stub: fetches the source line for display only")
+    # Python semantics of module-level objects: created once, shared by every use (the engine would otherwise re-evaluate the
+    # defining expression at each use and so hide aliasing between nodes produced from a module-level template)
+    _cmod = extract.get_module(COMPILER)
+    _memo = {}
+
+    def _memoised(nm, node):
+        def get(I):
+            key = (id(I.eng), I.eng.paths_done, nm)
+            if key not in _memo:
+                if len(_memo) > 4000:
+                    _memo.clear()
+                _memo[key] = I._module_constant(_cmod, node, nm)
+            return _memo[key]
+
+        return get
+
+    for _nm, _node in _cmod.top.items():
+        if isinstance(_node, (ast.Assign, ast.AnnAssign)) and f"{COMPILER}:{_nm}" not in reg.global_overrides:
+            reg.global_overrides[f"{COMPILER}:{_nm}"] = _memoised(_nm, _node)
     reg.trust("ast.NodeTransformer.generic_visit / NodeVisitor.visit", "stdlib: visit dispatches on the class name; generic_visit replaces each child by the result of visiting it and returns the node")
     reg.trust("abstract child visitor", "inside one rewrite the recursive self.visit/self.generic_visit is an arbitrary function of the child (identity, or a fresh node in function position), logged")
 
@@ -208,12 +243,32 @@ def register(reg):
             ok = isinstance(r, ast.Call) and isinstance(r.func, ast.Name) and r.func.id == id_ and isinstance(r.func.ctx, ast.Load) and as_list(r.args) == [] and as_list(r.keywords) == []
             eng.check(f"{n}#tracked_name_becomes_an_accessor_call", ok)
             eng.check(f"{n}#accessor_call_keeps_the_location", _same_location(r, node))
+            import copy
+
+            fx = ast.fix_missing_locations(_pythonize_tree(copy.copy(r))) if isinstance(r, ast.Call) else r
+            eng.check(f"{n}#line_of_produced_node.Call_accessor", getattr(fx, "lineno", None) == 7 and getattr(fx, "end_lineno", None) == 7)
+            eng.check(f"{n}#line_of_produced_node.Name_accessor_function", getattr(getattr(fx, "func", None), "lineno", None) == 7)
+            # a second occurrence of the name (on another line) gets a node of its own: nodes are not shared between uses
+            from pyvc.interp import FuncVal
+
+            other = _name(id_, 9, 1, ast.Load())
+            fn = I.find_method(env.vars["self"].cls, "visit_Name")
+            try:
+                r2 = I.run_function(fn, [env.vars["self"], other], {}, I.registry.contracts[f"{T}.visit_Name"])
+            except Exception as e:  # SymRaise etc.
+                r2 = e
+            eng.check(f"{n}#every_occurrence_gets_its_own_accessor_call", isinstance(r2, ast.Call) and r2 is not r and getattr(r, "lineno", None) == 7 and getattr(r2, "lineno", None) == 9, detail=f"first call now on line {getattr(r, 'lineno', None)}, second on {getattr(r2, 'lineno', None)}")
         elif id_ in BUILTIN:
             eng.check(f"{n}#str_int_float_are_not_renamed_outside_call_position", r is node and node.id == id_)
         elif id_ in locs:
             ok = isinstance(r, ast.Attribute) and isinstance(r.value, ast.Name) and r.value.id == BEHAVIOR_ARG and r.attr == id_ and r.ctx is env.vars["_ctxobj"]
             eng.check(f"{n}#behavior_local_becomes_an_attribute_of_the_behavior_object", ok)
             eng.check(f"{n}#behavior_local_lookup_keeps_the_location", _same_location(r, node))
+            import copy
+
+            fx = ast.fix_missing_locations(_pythonize_tree(copy.copy(r))) if isinstance(r, ast.Attribute) else r
+            eng.check(f"{n}#line_of_produced_node.Attribute_lookup", getattr(fx, "lineno", None) == 7 and getattr(fx, "end_lineno", None) == 7)
+            eng.check(f"{n}#line_of_produced_node.Name_behavior_object", getattr(getattr(fx, "value", None), "lineno", None) == 7)
         else:
             eng.check(f"{n}#other_names_are_returned_unchanged", r is node and node.id == id_ and node.ctx is env.vars["_ctxobj"] and node.lineno == 7)
 
@@ -400,7 +455,13 @@ def register(reg):
         if with_prop:
             # a Scenic property definition between two ordinary statements
             prop = S.PropertyDef.__new__(S.PropertyDef)
-            prop.property, prop.attributes = "width", []
+            attrs = []
+            for cn in ("Additive", "Dynamic"):
+                a_ = getattr(S, cn).__new__(getattr(S, cn))
+                _loc(a_, 3)
+                attrs.append(a_)
+            prop.property, prop.attributes = "width", attrs
+            node.end_lineno = 4
             prop.value = ast.parse("self.length * 2", mode="eval").body
             _loc(prop, 3)
             node.body = [_loc(ast.Pass(), 2), prop, _loc(ast.Expr(value=_loc(ast.Constant(value=0), 4)), 4)]
@@ -443,16 +504,41 @@ def register(reg):
         ok = ok and isinstance(v, ast.Call) and isinstance(v.func, ast.Name) and v.func.id == "_scenic_default" and len(vargs) == 3
         if ok:
             deps = sorted(e.value for e in as_list(vargs[0].elts)) if isinstance(vargs[0], ast.Set) else None
-            ok = deps == ["length"] and isinstance(vargs[1], ast.Set) and as_list(vargs[1].elts) == [] and isinstance(vargs[2], ast.Lambda) and vargs[2].body is prop.value
+            declared = sorted(getattr(e, "value", None) for e in as_list(vargs[1].elts)) if isinstance(vargs[1], ast.Set) else None
+            eng.check(f"{n}#property_attribute_table_lists_the_declared_attributes", declared == ["additive", "dynamic"], detail=f"{declared}")
+            ok = deps == ["length"] and isinstance(vargs[1], ast.Set) and isinstance(vargs[2], ast.Lambda) and vargs[2].body is prop.value
             ok = ok and [a.arg for a in as_list(vargs[2].args.args)] == ["self"]
         eng.check(f"{n}#property_default_is_a__scenic_default_of_its_dependencies_and_a_lambda_over_self", bool(ok))
+
+    def post_class_lines(I, env, outcome):
+        post_class(I, env, outcome)
+        if outcome[0] != "return" or not isinstance(outcome[1], ast.ClassDef):
+            return
+        import copy
+
+        eng = I.eng
+        n = "compiler.ScenicToPythonTransformer.visit_ClassDef"
+        node, orig = outcome[1], env.vars["_orig"]
+        had = {id(x) for o in orig["body"] + orig["bases"] + orig["keywords"] + orig["decorators"] for x in ast.walk(o)}
+        fixed = ast.fix_missing_locations(_pythonize_tree(copy.copy(node)))
+        lo, hi = node.lineno, getattr(node, "end_lineno", node.lineno) or node.lineno
+        kinds = {}
+        for x in ast.walk(fixed):
+            if x is fixed or id(x) in had or not hasattr(x, "lineno") and not isinstance(x, (ast.expr, ast.stmt)):
+                continue
+            label = type(x).__name__ + ("_" + x.id if isinstance(x, ast.Name) else "")
+            ok = isinstance(getattr(x, "lineno", None), int) and lo <= x.lineno <= hi
+            kinds[label] = kinds.get(label, True) and ok
+        # every node the rewrite adds lies, after fix_missing_locations, on a line of the class statement it belongs to
+        for label in sorted(kinds):
+            eng.check(f"{n}#line_of_produced_node.{label}", kinds[label])
 
     reg.add(
         C.Contract(
             f"{T}.visit_ClassDef",
             params=dict(self=C.Const(None), node=C.Const(None)),
             setup=setup_class,
-            post=post_class,
+            post=post_class_lines,
             inline=["ScenicToPythonTransformer.transformPropertyDef", "Transformer.makeSyntaxError"],
             raises=[C.Raises("Exception", mode="may")],
             replay=replay_class,
@@ -558,6 +644,297 @@ def register(reg):
         ),
         key=f"{COMPILER}:compileScenicAST[frame-census]",
     )
+    _register_round2(reg, make_transformer)
     from standins import python_corpus
 
     python_corpus.register(reg)
+
+
+# ================================================================================================= second round
+PARSER = "scenic.syntax.parser"
+
+DEFS = [
+    "def f(a, b, /, c, d=1, *e, g, h=2, **k): pass\n",
+    "def f(a, b=1, /, c=2, *, d=3): pass\n",
+    "def f(p='pos', /, q='ord'): pass\n",
+    "def f(a, /): pass\n",
+    "def f(a, /, b): pass\n",
+    "def f(a, b=1, *args): pass\n",
+    "def f(a=1, b=2, **kw): pass\n",
+    "def f(*, k): pass\n",
+    "def f(**kw): pass\n",
+    "def f(a, b=1, /, c=2, d=3): pass\n",
+]
+
+
+def replay_make_arguments(inputs, clause):
+    from standins.python_corpus import first_difference
+
+    src = inputs.get("source")
+    if not src:
+        return None
+    for t in (src, src.replace("def f(", "g = lambda ").replace("): pass", ": 0")):
+        try:
+            ast.parse(t)
+        except SyntaxError:
+            continue
+        tree = _real_compile(t)
+        d = first_difference(tree, ast.parse(t))
+        if d:
+            return f"`{t.strip()}`: {d}"
+    return None
+
+
+SCOPE_DEFS = {
+    "behavior": "behavior B(count):\n    total = count + 1\n    spacing = 2\n    wait\nmonitor M():\n    seen = 0\n    wait\n",
+    "scenario": "scenario S():\n    setup:\n        spacing = 2.5\n        count = 3\n        ego = new Object\n    compose:\n        total = 1\n        seen = 2\n        wait\n",
+}
+SCOPE_TAIL = """\
+count = 10
+spacing = [count * k for k in range(3)]
+def helper(n):
+    total = n + count
+    seen = total
+    return seen
+summary = (helper(1), spacing[-1])
+"""
+
+
+def mk_replay_scope(kind):
+    def replay_scope(inputs, clause):
+        """Real compiler: plain Python after a behavior+monitor / scenario definition whose locals have the same names."""
+        from standins.python_corpus import first_difference
+
+        text = SCOPE_DEFS[kind] + SCOPE_TAIL
+        tree = _real_compile(text)
+        n_before = SCOPE_DEFS[kind].count("\n")
+        expected = ast.parse("\n" * n_before + SCOPE_TAIL).body
+        actual = tree.body[-len(expected) :]
+        d = first_difference(actual, expected, "statements after the definition")
+        return f"plain Python following a {kind} definition is not compiled as CPython would: {d}" if d else None
+
+    return replay_scope
+
+
+HOOK_TEXT = {
+    "For": "for i in x:\n    y = i\n",
+    "While": "while x:\n    y = 1\n    break\n",
+    "FunctionDef": "def f(a):\n    for i in a:\n        if i:\n            continue\n        return i\n",
+    "Break": "for i in x:\n    break\n",
+    "Continue": "while x:\n    continue\n",
+    "Return": "def f(a):\n    return a\n",
+    "Yield": "def f(a):\n    yield a\n",
+    "YieldFrom": "def f(a):\n    yield from a\n",
+}
+
+
+def mk_replay_hook(hook):
+    def replay(inputs, clause):
+        from standins.python_corpus import first_difference
+
+        src = HOOK_TEXT[hook]
+        try:
+            tree = _real_compile(src)
+        except Exception as e:
+            return f"`{src.strip()}` (plain Python at top level): compilation fails with {type(e).__name__}: {e}"
+        d = first_difference(tree, ast.parse(src))
+        return f"`{src.strip()}`: {d}" if d else None
+
+    return replay
+
+
+def _register_round2(reg, make_transformer):
+    from contracts.frontend import _facts, scenic_ast
+
+    _facts()  # parser-resident carriers come from the parser regenerated from the current grammar
+    S = scenic_ast()
+    # the hooks get replay drivers (a mutant there must give a VIOLATION)
+    for h in HOOKS:
+        c = reg.contracts.get(f"{T}.visit_{h}")
+        if c is not None and c.replay is None:
+            c.replay = mk_replay_hook(h)
+
+    # ---------------------------------------------------------------- Parser.make_arguments == CPython's `arguments`
+    def setup_ma(I, env):
+        eng = I.eng
+        src = DEFS[eng.choose(len(DEFS), "parameter list")]
+        exp = ast.parse(src).body[0].args
+        P, R = list(exp.posonlyargs), list(exp.args)
+        allpos = P + R
+        nd = len(exp.defaults)
+        dflt = {id(a): d for a, d in zip(allpos[len(allpos) - nd :], exp.defaults)} if nd else {}
+        pair = lambda a: (a, dflt.get(id(a)))
+        r_no = [a for a in R if id(a) not in dflt]
+        r_def = [pair(a) for a in R if id(a) in dflt]
+        star = None
+        if exp.vararg or exp.kwonlyargs or exp.kwarg:
+            star = (exp.vararg, PList([(a, d) for a, d in zip(exp.kwonlyargs, exp.kw_defaults)]), exp.kwarg)
+        # the five ways the `parameters` rule of the grammar calls make_arguments
+        if P and not any(id(a) in dflt for a in P):
+            call = (PList([(a, None) for a in P]), PList([]), PList(r_no), PList(r_def), star)
+        elif P:
+            call = (None, PList([pair(a) for a in P]), None, PList(r_def), star)
+        elif r_no:
+            call = (None, PList([]), PList(r_no), PList(r_def), star)
+        elif r_def:
+            call = (None, PList([]), None, PList(r_def), star)
+        else:
+            call = (None, PList([]), None, None, star)
+        env.vars.update(self=C.Obj(f"{PARSER}:Parser").fresh(eng, "self", I), pos_only=call[0], pos_only_with_default=call[1], param_no_default=call[2], param_default=call[3], after_star=call[4], _exp=exp, _src=src)
+        eng.input_syms.append(("source", C.Const(None), src))
+
+    def post_ma(I, env, outcome):
+        eng = I.eng
+        n = "parser.Parser.make_arguments"
+        if outcome[0] != "return":
+            eng.check(f"{n}#no_exception", False, detail=_exc_name(outcome[1]))
+            return
+        r, exp = outcome[1], env.vars["_exp"]
+        same = lambda xs, ys: len(as_list(xs)) == len(ys) and all(a is b for a, b in zip(as_list(xs), ys))
+        isargs = isinstance(r, ast.arguments)
+        eng.check(f"{n}#positional_only_parameters_as_CPython", isargs and same(r.posonlyargs, exp.posonlyargs))
+        eng.check(f"{n}#ordinary_parameters_as_CPython", isargs and same(r.args, exp.args))
+        eng.check(f"{n}#defaults_in_parameter_order_as_CPython", isargs and same(r.defaults, exp.defaults))
+        eng.check(f"{n}#star_keyword_only_and_double_star_as_CPython", isargs and r.vararg is exp.vararg and r.kwarg is exp.kwarg and same(r.kwonlyargs, exp.kwonlyargs) and same(r.kw_defaults, exp.kw_defaults))
+
+    reg.add(
+        C.Contract(
+            f"{PARSER}:Parser.make_arguments",
+            params=dict(self=C.Const(None), pos_only=C.Const(None), pos_only_with_default=C.Const(None), param_no_default=C.Const(None), param_default=C.Const(None), after_star=C.Const(None)),
+            setup=setup_ma,
+            post=post_ma,
+            raises=[C.Raises("Exception", mode="may")],
+            replay=replay_make_arguments,
+            note="oracle: the `arguments` node CPython builds for the same parameter list; inputs in the five forms the `parameters` rule passes",
+            properties=("C09",),
+        )
+    )
+
+    # ---------------------------------------------------------------- scopes: the transformer state after a definition
+    reg.trust("LocalFinder.findIn", "model: returns the set of names bound in a block (an abstract set object)")
+
+    def scoped_transformer(I, log):
+        self = make_transformer(I)
+        outer = PSet([])
+        self.fields["behaviorLocals"] = outer
+        self.fields["inSetup"] = False
+
+        def visit(x):
+            f = self.fields
+            log.append(dict(what=x, locals=f["behaviorLocals"], inBehavior=f["inBehavior"], inMonitor=f["inMonitor"], inCompose=f["inCompose"], inSetup=f.get("inSetup")))
+            if isinstance(x, ast.arguments):
+                for fld in ("posonlyargs", "args", "kwonlyargs"):
+                    setattr(x, fld, PList(as_list(getattr(x, fld))))
+                return x
+            return PList(as_list(x)) if isinstance(x, (list, PList)) else x
+
+        self.fields["visit"] = BuiltinFn("visit", visit)
+        self.fields["makeGuardCheckers"] = BuiltinFn("makeGuardCheckers", lambda *a, **k: PList([]))
+        self.fields["generateInvocation"] = BuiltinFn("generateInvocation", lambda *a, **k: PList([]))
+        return self, outer
+
+    found = {}
+
+    def find_in(I, block):
+        key = tuple(id(x) for x in as_list(block))
+        if key not in found:
+            found[key] = PSet([f"local_of_block_{len(found)}"])
+        return found[key]
+
+    reg.models[f"{COMPILER}:LocalFinder.findIn"] = find_in
+
+    def state_checks(eng, n, self, outer):
+        f = self.fields
+        eng.check(f"{n}#on_exit.behavior_locals_are_those_of_the_enclosing_scope_again", f["behaviorLocals"] is outer)
+        eng.check(f"{n}#on_exit.context_flags_are_cleared", f["inBehavior"] is False and f["inMonitor"] is False and f["inCompose"] is False and f.get("inSetup") is False)
+
+    def setup_bl(I, env):
+        eng = I.eng
+        base = ["Behavior", "Monitor"][eng.choose(2, "kind")]
+        log = []
+        self, outer = scoped_transformer(I, log)
+        body = PList(ast.parse("total = count + 1\n").body)
+        args = ast.parse("def f(count, k=1): pass").body[0].args
+        doc = [None, '"doc"'][eng.choose(2, "docstring?")]
+        hdr = []
+        if base == "Behavior" and eng.choose(2, "precondition?") == 1:
+            pre = S.Precondition.__new__(S.Precondition)
+            pre.value = ast.Name(id="c", ctx=ast.Load())
+            pre.lineno = 2
+            hdr = [pre]
+        found.clear()
+        env.vars.update(self=self, baseClassName=base, name="B", args=args, docstring=doc, header=PList(hdr), body=body, _log=log, _outer=outer, _body=body, _base=base)
+
+    def post_bl(I, env, outcome):
+        eng = I.eng
+        n = "compiler.ScenicToPythonTransformer.makeBehaviorLikeDef"
+        if outcome[0] != "return":
+            eng.check(f"{n}#no_exception", False, detail=_exc_name(outcome[1]))
+            return
+        self, outer, log = env.vars["self"], env.vars["_outer"], env.vars["_log"]
+        state_checks(eng, n, self, outer)
+        stmts = as_list(env.vars["_body"])
+        bodyvisits = [e for e in log if isinstance(e["what"], (list, PList)) and as_list(e["what"]) == stmts]
+        flag = "inBehavior" if env.vars["_base"] == "Behavior" else "inMonitor"
+        ok = len(bodyvisits) == 1 and bodyvisits[0][flag] is True and bodyvisits[0]["locals"] is found.get(tuple(id(x) for x in stmts))
+        eng.check(f"{n}#body_is_compiled_with_its_own_locals_and_context", ok)
+        r = outcome[1]
+        eng.check(f"{n}#result_is_a_class_deriving_from_the_base", isinstance(r, ast.ClassDef) and r.name == "B" and [getattr(b, "id", None) for b in as_list(r.bases)] == [env.vars["_base"]])
+
+    reg.add(
+        C.Contract(
+            f"{T}.makeBehaviorLikeDef",
+            params=dict(self=C.Const(None), baseClassName=C.Const(None), name=C.Const(None), args=C.Const(None), docstring=C.Const(None), header=C.Const(None), body=C.Const(None)),
+            setup=setup_bl,
+            post=post_bl,
+            inline=["ScenicToPythonTransformer.separatePreconditionsAndInvariants", "unquote"],
+            raises=[C.Raises("Exception", mode="may")],
+            replay=mk_replay_scope("behavior"),
+            note="behavior locals are rewritten only inside the behavior: on exit the transformer is back in the enclosing (top-level) scope",
+            properties=("C09",),
+        )
+    )
+
+    def setup_sd(I, env):
+        eng = I.eng
+        log = []
+        self, outer = scoped_transformer(I, log)
+        node = S.ScenarioDef.__new__(S.ScenarioDef)
+        node.name = "Main"
+        node.args = ast.parse("def f(): pass").body[0].args
+        node.docstring = None
+        node.header = PList([])
+        has_setup, has_compose = eng.choose(2, "setup block?") == 1, eng.choose(2, "compose block?") == 1
+        node.setup = PList(ast.parse("count = 3\n").body) if has_setup else PList([])
+        node.compose = PList(ast.parse("spacing = 2\n").body) if has_compose else PList([])
+        node.lineno = 1
+        found.clear()
+        env.vars.update(self=self, node=node, _log=log, _outer=outer)
+
+    def post_sd(I, env, outcome):
+        eng = I.eng
+        n = "compiler.ScenicToPythonTransformer.visit_ScenarioDef"
+        if outcome[0] != "return":
+            eng.check(f"{n}#no_exception", False, detail=_exc_name(outcome[1]))
+            return
+        self, outer, log, node = env.vars["self"], env.vars["_outer"], env.vars["_log"], env.vars["node"]
+        state_checks(eng, n, self, outer)
+        for blk, flag in (("setup", "inSetup"), ("compose", "inCompose")):
+            stmts = as_list(getattr(node, blk))
+            if stmts:
+                v = [e for e in log if isinstance(e["what"], (list, PList)) and as_list(e["what"]) == stmts]
+                eng.check(f"{n}#{blk}_block_is_compiled_in_its_context_with_the_scenario_locals", len(v) == 1 and v[0][flag] is True and v[0]["locals"] is not outer)
+
+    reg.add(
+        C.Contract(
+            f"{T}.visit_ScenarioDef",
+            params=dict(self=C.Const(None), node=C.Const(None)),
+            setup=setup_sd,
+            post=post_sd,
+            inline=["ScenicToPythonTransformer.separatePreconditionsAndInvariants"],
+            raises=[C.Raises("Exception", mode="may")],
+            replay=mk_replay_scope("scenario"),
+            properties=("C09",),
+        ),
+        key=f"{T}.visit_ScenarioDef[scope]",
+    )
